@@ -31,6 +31,8 @@ type trimCase struct {
 	} `json:"exp"`
 }
 
+var trimCache = map[string]*builtG{}
+
 func trimGrammar(toks []int, lm, rm []string) []gnode {
 	k := len(toks)
 	G := make([]gnode, 0, 3*k+2)
@@ -62,7 +64,21 @@ func trimText(toks []int, gaps [][]int) []byte {
 func trimObserve(G []gnode, content []byte, base int, t *tracer) (obs J, events []J) {
 	obs = J{"ok": false, "nodes": [][]int{}, "vals": []int{}, "err": []interface{}{}, "text": ""}
 	m := safely(func() {
-		ps := build(G, t)
+		// the grammar object is built once and REUSED for every input with the same modes
+		kb, _ := json.Marshal(G)
+		b, ok := trimCache[string(kb)]
+		if !ok {
+			if len(trimCache) > 256 {
+				trimCache = map[string]*builtG{}
+			}
+			nt := &tracer{}
+			b = &builtG{t: nt, ps: build(G, nt)}
+			trimCache[string(kb)] = b
+		}
+		b.t.budget, b.t.quiet, b.t.ev, b.t.stack, b.t.count = t.budget, t.quiet, nil, nil, 0
+		b.t.attempts, b.t.nfails, b.t.bodyRuns = map[[2]int]bool{}, map[[2]int]bool{}, map[[2]int]int{}
+		t = b.t
+		ps := b.ps
 		root := ps[len(G)-1]
 		f, fs := fileAt(content, base)
 		ctx := parsley.NewContext(fs, text.NewReader(f))
@@ -215,6 +231,20 @@ func trimMain(mode string, a args) {
 				gaps[i] = g
 			}
 			emit(toks, gaps, lm, rm, 1+r.Intn(30))
+			// the same grammar object again on other whitespace (state kept in the parser graph must not matter)
+			for rep := 0; rep < 2; rep++ {
+				g2 := make([][]int, len(gaps))
+				for i := range g2 {
+					g2[i] = gaps[i]
+					if r.Intn(2) == 0 {
+						g2[i] = []int{}
+						for j := r.Intn(3); j > 0; j-- {
+							g2[i] = append(g2[i], wsb[r.Intn(len(wsb))])
+						}
+					}
+				}
+				emit(toks, g2, lm, rm, 1)
+			}
 		}
 		o.close()
 		fmt.Printf("{\"cases\":%d}\n", n)
